@@ -32,18 +32,20 @@ NODE_ID = ['node_id_to_bytes_contract', 'node_id_roundtrip_via_contract', 'node_
 
 TREE_INSERT = ['Writer::insert_items_in_file', 'randomly_split_children', 'Writer::fit_in_descendant',
                'lemma_ins_item_new', 'lemma_ins_item_same', 'lemma_ins_desc', 'lemma_ins_split']
+TREE_MAKE = ['Writer::make_tree_in_file', 'Writer::fit_in_descendant', 'lemma_mk_item', 'lemma_mk_desc', 'lemma_mk_split', 'lemma_part_step', 'lemma_part_done']
+MAKE_ASSUMED = [('src/writer.rs', None, 'split_imbalance'), ('src/parallel.rs', "impl<'t, D: Distance> ImmutableSubsetLeafs<'t, D>", 'from_item_ids')]
 FROZEN_ASSUMED = [('src/parallel.rs', "impl<'t, D: Distance> ImmutableLeafs<'t, D>", 'get'), ('src/parallel.rs', "impl<'t, D: Distance> ImmutableTrees<'t, D>", 'get')]
 
 PROPS = {
     'C01': {
         'verus': {'forest_lib': None,
                   'tree_delete': ['Writer::delete_items_in_file', 'Writer::fit_in_descendant', 'lemma_del_common', 'lemma_del_fit', 'lemma_del_one_side_empty', 'lemma_del_keep'],
-                  'tree_insert': TREE_INSERT,
+                  'tree_insert': TREE_INSERT, 'tree_make': TREE_MAKE,
                   'leafs_new': ['ImmutableLeafs::new'],
                   'writer_scans': ['Writer::item_indices', 'Writer::reset_and_retrieve_updated_items', 'Writer::clear_db_and_create_a_single_leaf', 'clear_tree_nodes']},
         'assumed_fns': [('src/parallel.rs', "impl<'a, DE: BytesEncode<'a>> TmpNodes<DE>", 'put'), ('src/parallel.rs', "impl<'a, DE: BytesEncode<'a>> TmpNodes<DE>", 'remove'),
                         ('src/parallel.rs', "impl<'a, DE: BytesEncode<'a>> TmpNodes<DE>", 'remap'), ('src/parallel.rs', 'impl TmpNodesReader', 'to_insert'),
-                        ('src/parallel.rs', 'impl TmpNodesReader', 'to_delete')] + FROZEN_ASSUMED,
+                        ('src/parallel.rs', 'impl TmpNodesReader', 'to_delete')] + FROZEN_ASSUMED + MAKE_ASSUMED,
         'not_decided': [],
     },
     'C03': {
@@ -59,8 +61,8 @@ PROPS = {
                         'every returned id is in reader.item_ids(): needs metadata.items = item key set (C01 build contract)'],
     },
     'C04': {
-        'verus': {'tree_insert': TREE_INSERT},
-        'assumed_fns': FROZEN_ASSUMED,
+        'verus': {'tree_insert': TREE_INSERT, 'tree_make': TREE_MAKE},
+        'assumed_fns': FROZEN_ASSUMED + MAKE_ASSUMED,
         'kani': {'quick': [('distance_side', ['side_follows_margin_sign', 'pq_distance_prefers_the_margin_side', 'pq_distance_from_root'])]},
         'static': ['no_override_side_pq'],
         'not_decided': ['placement clauses of insert_items_in_file / make_tree_in_file and the reader push order are decided by the build-chain / reader units where claimed',
@@ -76,7 +78,7 @@ PROPS = {
     },
     'C10': {
         'verus': {'tree_delete': ['Writer::delete_items_in_file', 'lemma_del_fit', 'lemma_del_one_side_empty', 'lemma_del_keep', 'lemma_del_common'],
-                  'tree_insert': TREE_INSERT, 'leafs_new': ['ImmutableLeafs::new'],
+                  'tree_insert': TREE_INSERT, 'tree_make': TREE_MAKE, 'leafs_new': ['ImmutableLeafs::new'],
                   'writer_scans': ['Writer::item_indices', 'Writer::reset_and_retrieve_updated_items', 'Writer::clear_db_and_create_a_single_leaf', 'clear_tree_nodes', 'NodeId::unwrap_item']},
         'assumed_fns': FROZEN_ASSUMED + [('src/writer.rs', "impl BuildOption<'_>", 'cancelled')],
         'trusted': ['every heed / TmpNodes stand-in call and every poll of cancelled() may return an arbitrary Ok/Err: all fault sequences at all poll points are covered symbolically',
@@ -86,14 +88,14 @@ PROPS = {
     },
     'C20': {
         'verus': {'tree_delete': ['Writer::delete_items_in_file', 'lemma_del_fit', 'lemma_del_one_side_empty', 'lemma_del_keep', 'lemma_del_common'],
-                  'tree_insert': TREE_INSERT, 'leafs_new': ['ImmutableLeafs::new'],
+                  'tree_insert': TREE_INSERT, 'tree_make': TREE_MAKE, 'leafs_new': ['ImmutableLeafs::new'],
                   'reader_search': ['Reader::nns_by_leaf'], 'store': ['Writer::add_item', 'Writer::item_vector', 'ItemIter::next']},
         'assumed_fns': FROZEN_ASSUMED + [('src/distance/mod.rs', None, 'two_means'), ('src/distance/mod.rs', None, 'two_means_binary_quantized'),
                                          ('src/writer.rs', None, 'split_imbalance')],
         'trusted': ['every float-dependent decision (side, create_split, split_imbalance, margins, distances) is uninterpreted in these units, so the structural contracts hold for duplicates, zero vectors, collinear data, huge / subnormal values, NaN and infinities alike',
                     'OrderedFloat is a total order (uninterpreted order embedding)'],
         'not_decided': ['bounded time (termination): not decided; two_means / create_split / normalize (closure and iterator float code) are not under contract, only drift-guarded',
-                        'make_tree_in_file (three attempts + random fallback) is not under contract yet'],
+                        ],
     },
     'C12': {
         'kani': {'quick': [('bq_codec', BQ_QUICK), ('bq_distance', ['bq_euclidean_is_4h_8_bytes', 'bq_dot_product_is_n_minus_2h_8_bytes']), ('bq_manhattan', ['bq_manhattan_is_2h_8_bytes'])],
@@ -145,8 +147,8 @@ PROPS = {
     },
     'C15': {
         'verus': {'tree_count': ['Writer::fit_in_descendant', 'target_n_trees'], 'writer_scans': ['Writer::clear_db_and_create_a_single_leaf'],
-                  'tree_insert': TREE_INSERT, 'tree_delete': ['Writer::delete_items_in_file', 'lemma_del_fit', 'lemma_del_one_side_empty', 'lemma_del_keep', 'lemma_del_common']},
-        'assumed_fns': FROZEN_ASSUMED,
+                  'tree_insert': TREE_INSERT, 'tree_make': TREE_MAKE, 'tree_delete': ['Writer::delete_items_in_file', 'lemma_del_fit', 'lemma_del_one_side_empty', 'lemma_del_keep', 'lemma_del_common']},
+        'assumed_fns': FROZEN_ASSUMED + MAKE_ASSUMED,
         'trusted': ['the f64 hysteresis test of target_n_trees is an uninterpreted boolean'],
         'not_decided': ['reader-visible tree count and bucket bound after a whole build: decided by the build-chain units (delete_extra_trees, missing-tree loop, bucket clauses) where claimed'],
     },
